@@ -151,7 +151,9 @@ IdRange(e) ==
               labelsBad, stageCur, stageOpen, setupCleanupSeen, rvOK>>)
 
 End(e) ==
-    /\ why' = why \cup Fails(<< <<e.a \in liveIds /\ e.b \in liveH, "C06", "end-without-start">> >>)
+    /\ why' = why \cup Fails(<< <<e.a \in liveIds /\ e.b \in liveH, "C06", "end-without-start">>,
+                                 \* c = the id the invocation observes when its body ends (a = the id it observed at its start)
+                                 <<e.b2 = "" \/ e.b2 = "same-id", "C03", "iteration-id-changed-during-the-invocation">> >>)
     \* the body has returned; its handle stays in use until the iteration's cleanups have run (Cleanup)
     /\ liveIds' = liveIds \ {e.a} /\ liveH' = liveH /\ endedIds' = endedIds \cup {e.a}
     /\ IF e.d = 1 THEN failT' = failT + 1 /\ Unch(succT) ELSE succT' = succT + 1 /\ Unch(failT)
